@@ -1,10 +1,559 @@
-//! C28 — not built yet.
+//! C28 Every persisted record reads back as written.
+//!
+//! Oracle (from the statement): for every record type, `read(write(v)) == v` (Time fields at the whole
+//! second the format stores) and the reader consumes exactly the bytes the writer produced — shown by
+//! decoding records that are concatenated in one buffer one after the other, with a sentinel after the
+//! last. Stored-point files are additionally written through `StoredPoint::update` with a real `Store`
+//! and read back with `StoredPoint::load_quietly`.
 
+use std::sync::atomic::{AtomicU64, Ordering};
+
+use chrono::{TimeZone, Utc};
+use proptest::prelude::*;
+use routinator::collector::verif::RepositoryState;
+use routinator::config::Config;
+use routinator::store::{Store, StoredManifest, StoredObject, StoredPoint, StoredPointHeader, StoredStatus};
+use rpki::repository::x509::Time;
+use serde::{Deserialize, Serialize};
+
+use crate::bx::*;
 use crate::core::*;
 
-pub const IMPLEMENTED: bool = false;
+const SENTINEL: [u8; 3] = [0xA5, 0x5A, 0xC3];
 
-pub fn run(_ctx: &Ctx, _rep: &mut Report, _replay: Option<&serde_json::Value>) {
-    eprintln!("C28: check not implemented");
-    std::process::exit(2);
+#[derive(Clone, Debug, Serialize, Deserialize)]
+pub enum AnyRec {
+    Header(MHeader),
+    /// header built by the public constructor (`LastAttempt(now)`)
+    NewHeader { uri: String, notify: Option<String> },
+    Manifest(MManifest),
+    Object(MObject),
+    Status(MTime),
+    State(MState),
+}
+
+fn whole(t: &MTime) -> Time {
+    Time::new(Utc.timestamp_opt(t.secs, 0).single().expect("time in range"))
+}
+
+fn expected_manifest(m: &MManifest) -> StoredManifest {
+    let mut v = m.to_real();
+    v.not_after = whole(&m.not_after);
+    v.this_update = whole(&m.this_update);
+    v
+}
+
+/// A record prepared for the sequence test: what was appended and how to judge what is read back.
+enum Written {
+    Header(StoredPointHeader),
+    Manifest(StoredManifest),
+    Object(StoredObject),
+    Status(Time),
+    State(RepositoryState),
+}
+
+fn fail(kind: &str, what: &str, msg: String) -> Verdict {
+    Verdict::fail(format!("C28/{}/{}", kind, what), msg)
+}
+
+/// Decodes the header from the reference encoding (the only public way to obtain an arbitrary status).
+/// Err(Dropped) if the reference encoding and the decoder disagree on the format (checked by the preamble).
+fn header_value(h: &MHeader) -> Result<StoredPointHeader, Verdict> {
+    let enc = enc_header(h).data;
+    let mut slice = enc.as_slice();
+    match StoredPointHeader::read(&mut slice) {
+        Ok(v) if slice.is_empty() => Ok(v),
+        Ok(_) => Err(Verdict::Dropped("reference_header_not_fully_consumed".into())),
+        Err(e) => Err(Verdict::Dropped(format!("reference_header_rejected:{}", e))),
+    }
+}
+
+fn caught(kind: &str, r: Result<Verdict, String>) -> Verdict {
+    match r {
+        Ok(v) => v,
+        Err(p) => fail(kind, "panic", format!("reader/writer panicked: {}", p)),
+    }
+}
+
+pub fn judge_sequence(recs: &[AnyRec], info: &mut CaseInfo) -> Verdict {
+    caught("sequence", catch(|| judge_sequence_in(recs, info)))
+}
+
+fn judge_sequence_in(recs: &[AnyRec], info: &mut CaseInfo) -> Verdict {
+    let mut buf: Vec<u8> = Vec::new();
+    let mut written: Vec<(Written, usize)> = Vec::new();
+    let mut present = 0;
+    let mut absent = 0;
+    let mut map2 = false;
+    let mut subsecond = false;
+    for r in recs {
+        let w = match r {
+            AnyRec::Header(h) => {
+                info.class("rec=header");
+                if h.notify.is_some() { present += 1 } else { absent += 1 }
+                let v = match header_value(h) {
+                    Ok(v) => v,
+                    Err(d) => return d,
+                };
+                if let Err(e) = v.write(&mut buf) {
+                    return fail("header", "write-error", e.to_string());
+                }
+                Written::Header(v)
+            }
+            AnyRec::NewHeader { uri, notify } => {
+                info.class("rec=new-header");
+                if notify.is_some() { present += 1 } else { absent += 1 }
+                let v = StoredPointHeader::new(rsync(uri), notify.as_deref().map(https));
+                let before = buf.len();
+                if let Err(e) = v.write(&mut buf) {
+                    return fail("header", "write-error", e.to_string());
+                }
+                // the constructor's values must be the ones encoded: compare with the reference
+                // encoding of (uri, notify, LastAttempt, <the second found in the bytes>)
+                let b = &buf[before..];
+                if b.len() < 8 {
+                    return fail("header", "length-mismatch", format!("header encoding of {} bytes", b.len()));
+                }
+                let secs = i64::from_be_bytes(b[b.len() - 8..].try_into().unwrap());
+                let reference = enc_header(&MHeader { uri: uri.clone(), notify: notify.clone(), success: false, secs }).data;
+                if b != reference.as_slice() {
+                    return fail("header", "value-mismatch/new", format!("StoredPointHeader::new({:?},{:?}) wrote {} instead of {}", uri, notify, to_hex(b), to_hex(&reference)));
+                }
+                // what must be read back: the same header at whole-second resolution
+                let mut s = b;
+                let expect = match StoredPointHeader::read(&mut s) {
+                    Ok(v) => v,
+                    Err(e) => return fail("header", "decode-error", format!("{} for {}", e, to_hex(b))),
+                };
+                Written::Header(expect)
+            }
+            AnyRec::Manifest(m) => {
+                info.class("rec=manifest");
+                subsecond |= m.not_after.nanos != 0 || m.this_update.nanos != 0;
+                if let Err(e) = m.to_real().write(&mut buf) {
+                    return fail("manifest", "write-error", e.to_string());
+                }
+                Written::Manifest(expected_manifest(m))
+            }
+            AnyRec::Object(o) => {
+                info.class("rec=object");
+                if o.hash.is_some() { present += 1 } else { absent += 1 }
+                let v = o.to_real();
+                if let Err(e) = v.write(&mut buf) {
+                    return fail("object", "write-error", e.to_string());
+                }
+                Written::Object(v)
+            }
+            AnyRec::Status(t) => {
+                info.class("rec=status");
+                subsecond |= t.nanos != 0;
+                if let Err(e) = status_of(t).write(&mut buf) {
+                    return fail("status", "write-error", e.to_string());
+                }
+                Written::Status(whole(t))
+            }
+            AnyRec::State(s) => {
+                info.class("rec=state");
+                if s.last_modified.is_some() { present += 1 } else { absent += 1 }
+                if s.etag.is_some() { present += 1 } else { absent += 1 }
+                let v = s.to_real();
+                map2 |= v.delta_state.len() >= 2;
+                if v.delta_state.len() >= 100 {
+                    info.class("state_map>=100");
+                }
+                if let Err(e) = v.verif_compose(&mut buf) {
+                    return fail("state", "write-error", e.to_string());
+                }
+                Written::State(v)
+            }
+        };
+        written.push((w, buf.len()));
+    }
+    info.nt((present >= 1 && absent >= 1) || map2);
+    if subsecond {
+        info.class("subsecond_part_dropped_by_format");
+    }
+    if recs.len() >= 2 {
+        info.class("concatenated");
+    }
+    let total = buf.len();
+    buf.extend_from_slice(&SENTINEL);
+    let mut slice = buf.as_slice();
+    for (i, (w, end)) in written.iter().enumerate() {
+        let (kind, res): (&str, Result<(), String>) = match w {
+            Written::Header(v) => ("header", match StoredPointHeader::read(&mut slice) {
+                Ok(d) if d == *v => Ok(()),
+                Ok(d) => Err(format!("value-mismatch|read {:?} wrote {:?}", d, v)),
+                Err(e) => Err(format!("decode-error|{}", e)),
+            }),
+            Written::Manifest(v) => ("manifest", match StoredManifest::read(&mut slice) {
+                Ok(d) if d == *v => Ok(()),
+                Ok(d) => Err(format!("value-mismatch|{}", manifest_diff(&d, v))),
+                Err(e) => Err(format!("decode-error|{}", e)),
+            }),
+            Written::Object(v) => ("object", match StoredObject::read(&mut slice) {
+                Ok(Some(d)) if d == *v => Ok(()),
+                Ok(Some(d)) => Err(format!("value-mismatch|read uri={} hash={:?} content {} bytes; wrote uri={} hash={:?} content {} bytes", d.uri, d.hash.as_ref().map(|h| to_hex(h.as_slice())), d.content.len(), v.uri, v.hash.as_ref().map(|h| to_hex(h.as_slice())), v.content.len())),
+                Ok(None) => Err("decode-error|reader reported end of input".to_string()),
+                Err(e) => Err(format!("decode-error|{}", e)),
+            }),
+            Written::Status(v) => ("status", match StoredStatus::read(&mut slice) {
+                Ok(d) if d.last_update == *v => Ok(()),
+                Ok(d) => Err(format!("value-mismatch|read {:?} wrote {:?}", d.last_update, v)),
+                Err(e) => Err(format!("decode-error|{}", e)),
+            }),
+            Written::State(v) => ("state", match RepositoryState::verif_parse(&mut slice) {
+                Ok(d) if d == *v => Ok(()),
+                Ok(d) => Err(format!("value-mismatch|read {:?} wrote {:?}", d, v)),
+                Err(e) => Err(format!("decode-error|{}", e)),
+            }),
+        };
+        if let Err(e) = res {
+            let (what, msg) = e.split_once('|').unwrap_or(("value-mismatch", &e));
+            return fail(kind, what, format!("record {} of {}: {}", i, recs.len(), truncate(msg, 1500)));
+        }
+        let consumed = buf.len() - slice.len();
+        if consumed != *end {
+            return fail(kind, "length-mismatch", format!("record {} of {}: reader stands at byte {} but the writer ended the record at {}", i, recs.len(), consumed, end));
+        }
+    }
+    if slice != SENTINEL {
+        return fail("sequence", "trailing", format!("{} bytes left instead of the sentinel after {} bytes", slice.len(), total));
+    }
+    // an object reader at the end of the stored-point stream reports a clean end
+    Verdict::Pass
+}
+
+fn manifest_diff(d: &StoredManifest, v: &StoredManifest) -> String {
+    let mut out = Vec::new();
+    if d.not_after != v.not_after {
+        out.push(format!("not_after {:?} != {:?}", d.not_after, v.not_after));
+    }
+    if d.manifest_number != v.manifest_number {
+        out.push(format!("manifest_number {} != {}", d.manifest_number, v.manifest_number));
+    }
+    if d.this_update != v.this_update {
+        out.push(format!("this_update {:?} != {:?}", d.this_update, v.this_update));
+    }
+    if d.ca_repository != v.ca_repository {
+        out.push(format!("ca_repository {} != {}", d.ca_repository, v.ca_repository));
+    }
+    if d.manifest != v.manifest {
+        out.push(format!("manifest bytes differ ({} vs {} bytes)", d.manifest.len(), v.manifest.len()));
+    }
+    if d.crl_uri != v.crl_uri {
+        out.push(format!("crl_uri {} != {}", d.crl_uri, v.crl_uri));
+    }
+    if d.crl != v.crl {
+        out.push(format!("crl bytes differ ({} vs {} bytes)", d.crl.len(), v.crl.len()));
+    }
+    format!("read != written: {}", out.join("; "))
+}
+
+//------------ stored-point files ---------------------------------------------------------------
+
+#[derive(Clone, Debug, Serialize, Deserialize)]
+pub struct MPoint {
+    pub header: MHeader,
+    pub manifest: MManifest,
+    pub objects: Vec<MObject>,
+    /// write through `StoredPoint::update` (real Store, temp file, persist) instead of plain writers
+    pub via_update: bool,
+}
+
+static FILE_NO: AtomicU64 = AtomicU64::new(0);
+
+fn judge_point(dir: &std::path::Path, store: &Store, p: &MPoint, info: &mut CaseInfo) -> Verdict {
+    caught("point", catch(|| judge_point_in(dir, store, p, info)))
+}
+
+fn judge_point_in(dir: &std::path::Path, store: &Store, p: &MPoint, info: &mut CaseInfo) -> Verdict {
+    let path = dir.join(format!("point-{}.bin", FILE_NO.fetch_add(1, Ordering::SeqCst)));
+    let expect_manifest = expected_manifest(&p.manifest);
+    let objects: Vec<StoredObject> = p.objects.iter().map(|o| o.to_real()).collect();
+    let some = p.objects.iter().filter(|o| o.hash.is_some()).count();
+    info.nt(p.objects.len() >= 2 && ((some >= 1 && some < p.objects.len()) || p.header.notify.is_some()));
+    info.class(if p.via_update { "via=update" } else { "via=writers" });
+    info.class(format!("objects={}", p.objects.len().min(4)));
+    let verdict = (|| {
+        let mut expect_m = Some(expect_manifest.clone());
+        if p.via_update {
+            // initial file as created for a new point
+            let mut f = Vec::new();
+            StoredPointHeader::new(rsync(&p.header.uri), p.header.notify.as_deref().map(https)).write(&mut f).unwrap();
+            std::fs::write(&path, &f).unwrap();
+            let Some(mut point) = StoredPoint::load_quietly(path.clone()) else {
+                return fail("point", "decode-error", "load_quietly failed on a fresh header".into());
+            };
+            if point.manifest().is_some() {
+                return fail("point", "value-mismatch/fresh-manifest", "fresh point reports a manifest".into());
+            }
+            let mut it = objects.iter();
+            if let Err(e) = point.update(store, p.manifest.to_real(), || Ok(it.next().cloned())) {
+                return Verdict::Dropped(format!("update failed: {:?}", e));
+            }
+            // the updated point is positioned at the first object
+            for (i, o) in objects.iter().enumerate() {
+                match point.next() {
+                    Some(Ok(d)) if d == *o => {}
+                    other => return fail("point", "value-mismatch/after-update", format!("object {} after update: {:?}", i, other.map(|r| r.map(|o| o.uri.to_string()).map_err(|e| e.to_string())))),
+                }
+            }
+            if point.next().is_some() {
+                return fail("point", "length-mismatch/after-update", "extra object after update".into());
+            }
+            drop(point);
+            // header on disk: same URIs, status success
+            let data = std::fs::read(&path).unwrap();
+            let mut s = data.as_slice();
+            let hdr = match StoredPointHeader::read(&mut s) {
+                Ok(h) => h,
+                Err(e) => return fail("point", "decode-error", format!("header after update: {}", e)),
+            };
+            let hlen = data.len() - s.len();
+            let secs = i64::from_be_bytes(data[hlen - 8..hlen].try_into().unwrap());
+            let reference = enc_header(&MHeader { uri: p.header.uri.clone(), notify: p.header.notify.clone(), success: true, secs }).data;
+            if data[..hlen] != reference[..] {
+                return fail("point", "value-mismatch/header-after-update", format!("header bytes {} expected {}", to_hex(&data[..hlen]), to_hex(&reference)));
+            }
+            let _ = hdr;
+        } else {
+            let mut f = enc_header(&p.header).data;
+            if p.header.success {
+                p.manifest.to_real().write(&mut f).unwrap();
+                for o in &objects {
+                    o.write(&mut f).unwrap();
+                }
+            } else {
+                expect_m = None;
+            }
+            std::fs::write(&path, &f).unwrap();
+        }
+        let Some(mut point) = StoredPoint::load_quietly(path.clone()) else {
+            return fail("point", "decode-error", "load_quietly returned None for a file written by the writers".into());
+        };
+        if point.manifest() != expect_m.as_ref() {
+            return fail("point", "value-mismatch/manifest", match (point.manifest(), expect_m.as_ref()) {
+                (Some(d), Some(v)) => manifest_diff(d, v),
+                (d, v) => format!("manifest present: read {} written {}", d.is_some(), v.is_some()),
+            });
+        }
+        if expect_m.is_some() {
+            for (i, o) in objects.iter().enumerate() {
+                match point.next() {
+                    Some(Ok(d)) if d == *o => {}
+                    Some(Ok(d)) => return fail("point", "value-mismatch/object", format!("object {}: read {} ({} bytes) wrote {} ({} bytes)", i, d.uri, d.content.len(), o.uri, o.content.len())),
+                    Some(Err(e)) => return fail("point", "decode-error", format!("object {}: {}", i, e)),
+                    None => return fail("point", "length-mismatch", format!("object {} of {} missing", i, objects.len())),
+                }
+            }
+        }
+        match point.next() {
+            None => Verdict::Pass,
+            Some(r) => fail("point", "length-mismatch", format!("extra item after the last object: {:?}", r.map(|o| o.uri.to_string()).map_err(|e| e.to_string()))),
+        }
+    })();
+    let _ = std::fs::remove_file(&path);
+    verdict
+}
+
+//------------ byte level: decode -> encode -> decode fix-point -----------------------------------
+
+/// For every record type whose decoder accepts a prefix of `data`: the decoded value must survive
+/// write+read unchanged and the second read must consume exactly what was written.
+/// Only inputs that the independent walker finds complete are decoded (no huge length fields).
+pub fn judge_bytes(data: &[u8], info: &mut CaseInfo) -> Verdict {
+    caught("bytes", catch(|| judge_bytes_in(data, info)))
+}
+
+fn judge_bytes_in(data: &[u8], info: &mut CaseInfo) -> Verdict {
+    let mut decoded_any = false;
+    for rec in [Rec::Header, Rec::Manifest, Rec::Objects, Rec::Status, Rec::State] {
+        let w = walk(rec, data, 1 << 20);
+        if !matches!(w.stop, Stop::Done(_)) {
+            continue;
+        }
+        let mut s = data;
+        macro_rules! fix {
+            ($kind:expr, $read:expr, $write:expr, $eq:expr) => {{
+                if let Ok(v) = $read(&mut s) {
+                    decoded_any = true;
+                    info.class(format!("decoded={}", $kind));
+                    let mut b = Vec::new();
+                    if let Err(e) = $write(&v, &mut b) {
+                        return fail($kind, "write-error", e.to_string());
+                    }
+                    let n = b.len();
+                    b.extend_from_slice(&SENTINEL);
+                    let mut s2 = b.as_slice();
+                    match $read(&mut s2) {
+                        Ok(v2) if $eq(&v, &v2) => {}
+                        Ok(_) => return fail($kind, "value-mismatch", format!("decode(encode(v)) != v for v decoded from {}", to_hex(data))),
+                        Err(e) => return fail($kind, "decode-error", format!("{} when re-reading the encoding of a decoded value ({})", e, to_hex(data))),
+                    }
+                    if s2 != SENTINEL {
+                        return fail($kind, "length-mismatch", format!("re-read left {} bytes of {}+3", s2.len(), n));
+                    }
+                }
+            }};
+        }
+        match rec {
+            Rec::Header => fix!("header", |s: &mut &[u8]| StoredPointHeader::read(s), |v: &StoredPointHeader, b: &mut Vec<u8>| v.write(b), |a: &StoredPointHeader, b: &StoredPointHeader| a == b),
+            Rec::Manifest => fix!("manifest", |s: &mut &[u8]| StoredManifest::read(s), |v: &StoredManifest, b: &mut Vec<u8>| v.write(b), |a: &StoredManifest, b: &StoredManifest| a == b),
+            Rec::Objects => fix!(
+                "object",
+                |s: &mut &[u8]| StoredObject::read(s).and_then(|o| o.ok_or_else(|| routinator::utils::binio::ParseError::format("end"))),
+                |v: &StoredObject, b: &mut Vec<u8>| v.write(b),
+                |a: &StoredObject, b: &StoredObject| a == b
+            ),
+            Rec::Status => fix!("status", |s: &mut &[u8]| StoredStatus::read(s), |v: &StoredStatus, b: &mut Vec<u8>| v.write(b), |a: &StoredStatus, b: &StoredStatus| a.last_update == b.last_update),
+            Rec::State => fix!("state", |s: &mut &[u8]| RepositoryState::verif_parse(s).map_err(routinator::utils::binio::ParseError::from), |v: &RepositoryState, b: &mut Vec<u8>| v.verif_compose(b), |a: &RepositoryState, b: &RepositoryState| a == b),
+            Rec::Point => {}
+        }
+    }
+    info.nt(decoded_any);
+    Verdict::Pass
+}
+
+/// libFuzzer body.
+pub fn fuzz_bytes(data: &[u8]) -> Result<(), String> {
+    let mut info = CaseInfo::default();
+    match judge_bytes(data, &mut info) {
+        Verdict::Fail { key, msg } => Err(format!("{}: {}", key, msg)),
+        _ => Ok(()),
+    }
+}
+
+//------------ strategies -----------------------------------------------------------------------
+
+fn anyrec_strategy(big: u32) -> impl Strategy<Value = AnyRec> {
+    prop_oneof![
+        2 => header_strategy().prop_map(AnyRec::Header),
+        1 => (rsync_uri_strategy(40), prop::option::of(https_uri_strategy(20))).prop_map(|(uri, notify)| AnyRec::NewHeader { uri, notify }),
+        3 => manifest_strategy(big).prop_map(AnyRec::Manifest),
+        3 => object_strategy(big).prop_map(AnyRec::Object),
+        1 => mtime_strategy().prop_map(AnyRec::Status),
+        3 => state_strategy(500).prop_map(AnyRec::State),
+    ]
+}
+
+/// A valid encoding of one record with a few body bytes replaced (most stay decodable).
+fn mutated_valid_strategy() -> impl Strategy<Value = Hex> {
+    let enc = prop_oneof![
+        header_strategy().prop_map(|h| enc_header(&h)),
+        manifest_strategy(300).prop_map(|m| enc_manifest(&m)),
+        object_strategy(300).prop_map(|o| enc_object(&o)),
+        mtime_strategy().prop_map(|t| enc_status(&t)),
+        state_strategy(20).prop_map(|s| enc_state(&s)),
+    ];
+    (enc, prop::collection::vec((any::<prop::sample::Index>(), any::<u8>()), 0..4), prop::collection::vec(any::<u8>(), 0..8)).prop_map(|(e, subs, tail)| {
+        let mut d = e.data;
+        let spots: Vec<usize> = e.fields.iter().filter(|f| matches!(f.kind, FieldKind::Body | FieldKind::Int64) && f.len > 0).flat_map(|f| f.off..f.off + f.len).collect();
+        for (ix, b) in subs {
+            if !spots.is_empty() {
+                d[spots[ix.index(spots.len())]] = b;
+            }
+        }
+        d.extend_from_slice(&tail);
+        Hex(d)
+    })
+}
+
+fn preamble() -> Result<(), String> {
+    // The reference encoder (used to obtain headers with an arbitrary status and by C27) must agree
+    // with the real writers on fixed values; otherwise the harness is out of date: exit 2, not a verdict.
+    // This is only concluded when the real writer and reader agree with each other on the value — if
+    // they do not, that is the property's business and the bulk search reports it.
+    let m = MManifest {
+        not_after: MTime { secs: 1_759_335_022, nanos: 0 },
+        number: Hex(vec![0; 20]),
+        this_update: MTime { secs: 1_275_552_660, nanos: 0 },
+        ca_repository: "rsync://example.com/test/".into(),
+        manifest: MBytes::of(b"deadbeef"),
+        crl_uri: "rsync://example.com/test/test.crl".into(),
+        crl: MBytes::of(b"crlbytesgohere"),
+    };
+    let o = MObject { uri: "rsync://example.com/test/obj1.bin".into(), hash: Some(Hex(vec![7; 32])), content: MBytes::of(b"object1content") };
+    let t = MTime { secs: 1_700_000_000, nanos: 0 };
+    let s = MState { notify: "https://foo.bar/baz".into(), session: Hex(vec![0xa1; 16]), serial: 0x1234567812345678, updated: -12, best_before: 123789123789123, last_modified: Some(239123908123), etag: Some(MBytes::of(b"W/\"x\"")), deltas: vec![(18, 3)] };
+    let mut info = CaseInfo::default();
+    for (what, rec, reference) in [
+        ("manifest", AnyRec::Manifest(m.clone()), enc_manifest(&m).data),
+        ("object", AnyRec::Object(o.clone()), enc_object(&o).data),
+        ("status", AnyRec::Status(t), enc_status(&t).data),
+        ("state", AnyRec::State(s.clone()), enc_state(&s).data),
+    ] {
+        if !matches!(judge_sequence(std::slice::from_ref(&rec), &mut info), Verdict::Pass) {
+            continue; // writer and reader disagree with each other: left to the bulk search
+        }
+        let mut b = Vec::new();
+        let r = match &rec {
+            AnyRec::Manifest(m) => m.to_real().write(&mut b),
+            AnyRec::Object(o) => o.to_real().write(&mut b),
+            AnyRec::Status(t) => status_of(t).write(&mut b),
+            AnyRec::State(s) => s.to_real().verif_compose(&mut b),
+            _ => Ok(()),
+        };
+        r.map_err(|e| e.to_string())?;
+        if b != reference {
+            return Err(format!("reference {} encoding differs from the real writer (which round-trips)", what));
+        }
+    }
+    for success in [true, false] {
+        let h = MHeader { uri: "rsync://example.com/test/test.mft".into(), notify: Some("https://example.com/notification.xml".into()), success, secs: 1_700_000_000 };
+        let enc = enc_header(&h).data;
+        let v = StoredPointHeader::read(&mut enc.as_slice()).map_err(|e| format!("reference header rejected: {}", e))?;
+        let mut b = Vec::new();
+        v.write(&mut b).map_err(|e| e.to_string())?;
+        let again = StoredPointHeader::read(&mut b.as_slice());
+        if matches!(again, Ok(ref a) if *a == v) && b != enc {
+            return Err("reference header encoding differs from StoredPointHeader::write (which round-trips)".into());
+        }
+    }
+    Ok(())
+}
+
+pub fn run(ctx: &Ctx, rep: &mut Report, replay: Option<&serde_json::Value>) {
+    rep.rule("sequences of 1..=4 records (stored point header incl. one from the public constructor, stored manifest, stored object, store status, RRDP repository state) over rsync/https URIs from rpki's grammar (any-case scheme, all legal punctuation, up to 300 segments), times over chrono's whole range with and without sub-second part, serials up to 2^159-1, optional fields, ETags (strong, weak, empty, arbitrary bytes), delta maps of 0..500 entries, contents of 0..70000 bytes; written into one buffer and read back in sequence; plus stored-point files written by the writers or through StoredPoint::update (real Store) and read by load_quietly; plus mutated valid encodings for the decode-encode-decode fix-point; non-trivial = at least one optional field present and one absent, or a delta map with >= 2 entries (files: >= 2 objects with mixed hash presence or a notify URI; bytes: some decoder accepted the input); distinct by serialised case");
+    rep.assume("Time values are compared at the whole second the format stores by design (DESIGN §3); sub-second loss is counted as class subsecond_part_dropped_by_format, never as a failure");
+    rep.assume("manifest hashes of stored objects are 32 bytes (objects are stored only after their SHA-256 manifest hash was verified); headers with an arbitrary update status are obtained by decoding the harness' reference encoding because the status type is private");
+    if let Err(e) = preamble() {
+        eprintln!("C28 preamble failed (harness out of date, not a verdict): {}", e);
+        std::process::exit(2);
+    }
+    let scratch = ctx.scratch();
+    let dir = scratch.path().to_path_buf();
+    let config = Config::default_with_paths(dir.join("routinator.conf"), dir.join("cache"));
+    let store = match Store::new(&config) {
+        Ok(s) => s,
+        Err(_) => {
+            eprintln!("C28: cannot create store in scratch dir");
+            std::process::exit(2);
+        }
+    };
+    let point = |p: &MPoint, i: &mut CaseInfo| judge_point(&dir, &store, p, i);
+    if let Some(v) = replay {
+        let t: Tagged<serde_json::Value> = serde_json::from_value(v.clone()).expect("replay");
+        match t.sub.as_str() {
+            "sequence" | "big" => run_case(ctx, rep, &t.sub, &serde_json::from_value::<Vec<AnyRec>>(t.case).expect("case"), |c, i| judge_sequence(c, i)),
+            "point" => run_case(ctx, rep, "point", &serde_json::from_value::<MPoint>(t.case).expect("case"), point),
+            "bytes" => run_case(ctx, rep, &t.sub, &serde_json::from_value::<Hex>(t.case).expect("case"), |d, i| judge_bytes(&d.0, i)),
+            other if other.starts_with("fuzz:") || other.starts_with("corpus:") => run_case(ctx, rep, other, &serde_json::from_value::<Hex>(t.case).expect("case"), |d, i| judge_bytes(&d.0, i)),
+            other => panic!("unknown sub {}", other),
+        }
+        return;
+    }
+    // how often the URI generators had to fall back (must stay rare)
+    let sample = sample_strategy(&(rsync_uri_strategy(300), https_uri_strategy(20)), ctx.seed_for("uri-sample"), 2000);
+    let fb = sample.iter().filter(|(r, h)| r.contains("fallback.example") || h.contains("fallback.example")).count();
+    rep.extra.insert("uri_generator_fallbacks_per_2000".into(), serde_json::json!(fb));
+    run_prop(ctx, rep, "sequence", ctx.tier.pick(30_000, 400_000), prop::collection::vec(anyrec_strategy(3_000), 1..=4), |c, i| judge_sequence(c, i));
+    run_prop(ctx, rep, "big", ctx.tier.pick(300, 6_000), prop::collection::vec(anyrec_strategy(70_000), 1..=3), |c, i| judge_sequence(c, i));
+    let point_strategy = (header_strategy(), manifest_strategy(3_000), prop::collection::vec(object_strategy(3_000), 0..6), any::<bool>()).prop_map(|(header, manifest, objects, via_update)| MPoint { header, manifest, objects, via_update });
+    run_prop(ctx, rep, "point", ctx.tier.pick(5_000, 60_000), point_strategy, point);
+    run_prop(ctx, rep, "bytes", ctx.tier.pick(20_000, 300_000), mutated_valid_strategy(), |d, i| judge_bytes(&d.0, i));
+    crate::fz::replay_corpus(ctx, rep, "rt_records", |d, i| judge_bytes(d, i));
+    if ctx.tier == Tier::Thorough {
+        crate::fz::campaign(ctx, rep, "rt_records", 3_000_000, 4096, |d, i| judge_bytes(d, i));
+    }
 }
